@@ -35,9 +35,9 @@ func init() {
 		Quick: 60000, Thorough: 4000000,
 		Run:  runC10,
 		Rule: "one run = histories of json calls (Marshal, Encoder.Encode, Unmarshal, Parse with a ParseFlags subset, Decoder.Decode×k over a simulated reader, Tokenizer pass, scribble over an input, recheck) for 1..3 simulated goroutines plus pool policy and schedule, from the tape; non-trivial = at least one fault fired (an input was scribbled while results from it were live, a pooled buffer was reused after poison, the Decoder refilled its buffer between two results, or a context switch happened); distinct = distinct hash of (operations, documents, flags, schedule trace)",
-		FaultKinds: []string{"scribble-input-with-live-results", "destination-decoded-into-again", "pooled-buffer-poisoned-and-reused", "decoder-refill-between-results", "decoder-reader-chunked", "context-switch", "zero-copy-flags", "loose-capacity-input",
+		FaultKinds: []string{"scribble-input-with-live-results", "tokenizer-reset-and-reused", "destination-decoded-into-again", "pooled-buffer-poisoned-and-reused", "decoder-refill-between-results", "decoder-reader-chunked", "context-switch", "zero-copy-flags", "loose-capacity-input",
 			"pool-policy:lifo", "pool-policy:fifo", "pool-policy:random", "pool-policy:never-reuse", "pool-policy:drop-on-put"},
-		ProbeNames: []string{"ops", "inputs-checked-unchanged", "result-leaves-tracked", "leaves-aliasing-input(allowed)", "leaves-rechecked-after-scribble", "marshal-results-rechecked", "decoder-values", "decoder-zero-copy-values-checked-until-next-decode", "encoder-inputs-checked-unchanged", "tokenizer-strings", "writer-buffers-checked-stable-during-write"},
+		ProbeNames: []string{"ops", "inputs-checked-unchanged", "result-leaves-tracked", "leaves-aliasing-input(allowed)", "leaves-rechecked-after-scribble", "marshal-results-rechecked", "decoder-values", "decoder-zero-copy-values-checked-until-next-decode", "encoder-inputs-checked-unchanged", "tokenizer-strings", "writer-buffers-checked-stable-during-write", "decoder-leaves-in-read-buffer(allowed)", "tokenizer-strings-unescaped(own memory, tracked)"},
 		Real:       []string{"json.Marshal/Encoder/Unmarshal/Parse/Decoder/Tokenizer compiled from /repo's working tree with sync redirected to the shim"},
 		Model:      []string{"sync.Pool (simulated; poison on put, LIFO reuse by default)", "scheduler", "io.Reader (simio.Reader)", "caller buffers (simio.GuardedBuf: canaries + shadow copy)"},
 		Assumptions: []string{
@@ -107,6 +107,8 @@ type c10Op struct {
 	tail    int
 	ndecode int
 	useNum  bool
+	// Tokenizer: Reset and reuse the task's previous Tokenizer
+	tokReset bool
 }
 
 const (
@@ -116,9 +118,10 @@ const (
 	leafBytes
 	leafKey
 	leafMarshal
+	leafTokString
 )
 
-var leafNames = []string{"string", "Number", "RawMessage", "[]byte", "map key", "Marshal result"}
+var leafNames = []string{"string", "Number", "RawMessage", "[]byte", "map key", "Marshal result", "Tokenizer.String result"}
 
 type leaf struct {
 	view    []byte
@@ -339,6 +342,10 @@ func c10Flags(t *tape.Tape) json.ParseFlags {
 	if t.Chance(1, 3) {
 		f |= json.UseNumber
 	}
+	if t.Chance(1, 4) {
+		// integer representations for numbers decoded into interfaces (Parse only)
+		f |= []json.ParseFlags{json.UseInt64, json.UseUint64, json.UseBigInt, json.UseInt64 | json.UseBigInt}[t.Intn(4)]
+	}
 	if t.Chance(1, 8) {
 		f |= json.DontMatchCaseInsensitiveStructFields
 	}
@@ -412,6 +419,9 @@ func c10GenTask(r *core.Run, t *tape.Tape) []*c10Op {
 			op.loose = t.Chance(1, 3)
 			if op.kind == c10Parse {
 				op.flags = c10Flags(t)
+			}
+			if op.kind == c10Tokenizer {
+				op.tokReset = t.Bool()
 			}
 		case c10Decoder:
 			op.ty = c10Types(t)
@@ -580,6 +590,7 @@ func checkLeaves(ls []leaf, when string) (string, string) {
 func c10Exec(task int, ops []*c10Op, tr *c10TaskRes) {
 	tr.probes = map[string]int64{}
 	tr.faults = map[string]int64{}
+	var tok *json.Tokenizer
 	for j, op := range ops {
 		tr.probes["ops"]++
 		switch op.kind {
@@ -667,12 +678,30 @@ func c10Exec(task int, ops []*c10Op, tr *c10TaskRes) {
 			}
 		case c10Tokenizer:
 			in := op.buf.Body()
-			tok := json.NewTokenizer(in)
+			// one Tokenizer per task is reused through Reset for some passes: what
+			// an earlier pass handed out must survive the later ones
+			if tok == nil || !op.tokReset {
+				tok = json.NewTokenizer(in)
+			} else {
+				tok.Reset(in)
+				tr.faults["tokenizer-reset-and-reused"]++
+			}
+			base := uintptr(unsafe.Pointer(&op.buf.All[0]))
 			for tok.Next() {
 				if tok.Kind().Class() == json.String {
 					s := tok.String()
-					_ = s
 					tr.probes["tokenizer-strings"]++
+					if len(s) == 0 {
+						continue
+					}
+					// String returns a view of the input or memory of its own
+					l := leaf{view: s, snap: append([]byte(nil), s...), kind: leafTokString, op: j, path: "Tokenizer.String()"}
+					if p := uintptr(unsafe.Pointer(&s[0])); p >= base && p < base+uintptr(len(op.buf.All)) {
+						l.inInput = true
+					} else {
+						tr.probes["tokenizer-strings-unescaped(own memory, tracked)"]++
+					}
+					tr.leaves = append(tr.leaves, l)
 				}
 			}
 			tr.checkInput(op, "Tokenizer")
@@ -721,6 +750,27 @@ func c10Exec(task int, ops []*c10Op, tr *c10TaskRes) {
 				}
 				tr.probes["decoder-values"]++
 				ls := tr.track(j, &c10Op{kind: c10Decoder, flags: op.flags}, x, fmt.Sprintf("Decode#%d", k), zero)
+				// a result that points into a buffer the Decoder handed to Read shares
+				// memory with the Decoder's read buffer, which later Decode calls refill
+				for i := range ls {
+					l := &ls[i]
+					if !rd.LentContains(uintptr(unsafe.Pointer(&l.view[0]))) {
+						continue
+					}
+					allowed := false
+					switch l.kind {
+					case leafString, leafKey:
+						allowed = op.flags&json.DontCopyString != 0
+					case leafNumber:
+						allowed = op.flags&json.DontCopyNumber != 0
+					case leafRaw:
+						allowed = op.flags&json.DontCopyRawMessage != 0
+					}
+					if !allowed {
+						tr.failf("alias-decoder-buffer-without-flag:"+leafNames[l.kind], "Decoder (flags %#x): decoded %s at %s shares memory with the Decoder's read buffer although the zero-copy flag for it is not set: %q", uint32(op.flags), leafNames[l.kind], l.path, clip(l.view, 60))
+					}
+					tr.probes["decoder-leaves-in-read-buffer(allowed)"]++
+				}
 				if zero {
 					prev = ls
 				}
